@@ -64,7 +64,8 @@ func eventDatagram(rng *rand.Rand, lt *layoutTables, cls string, tag uint32) []b
 	case "valid19":
 		m[0] = 0x19
 	case "badlen":
-		n := []int{0, 1, 63, 65, 128, 1024, 2048, 3000}[rng.Intn(8)]
+		// every wrong length in turn (process-wide counter), so that each of them - the empty datagram too - occurs in every run
+		n := []int{0, 1, 63, 65, 128, 1024, 2048, 3000, 2, 32, 66, 127}[int(atomic.AddInt32(&badlenTurn, 1))%12]
 		if n <= 64 {
 			m = m[:n]
 		} else {
@@ -91,6 +92,9 @@ func eventDatagram(rng *rand.Rand, lt *layoutTables, cls string, tag uint32) []b
 			copy(m[24:27], [][]byte{{0x24, 0x00, 0x00}, {0x12, 0x60, 0x00}, {0x23, 0x59, 0x60}}[rng.Intn(3)])
 		}
 	case "malformed":
+		if rng.Intn(3) == 0 {
+			m[0] = 0x19 // a v6.62 event with a field outside its domain is refused like any other
+		}
 		if rng.Intn(2) == 0 {
 			m[[]int{13, 28, 29, 30, 31, 32, 33, 34, 35}[rng.Intn(9)]] = byte(2 + rng.Intn(254))
 		} else {
@@ -102,6 +106,8 @@ func eventDatagram(rng *rand.Rand, lt *layoutTables, cls string, tag uint32) []b
 }
 
 var evClasses = []string{"valid", "valid", "valid", "valid19", "badlen", "serial0", "badcode", "badproto", "malformed", "impossible"}
+
+var badlenTurn int32
 
 func isValidClass(c string) bool { return c == "valid" || c == "valid19" }
 
